@@ -541,11 +541,146 @@ func TestLockHistories(t *testing.T) {
 		ev.Case(string(key), acquirers >= 2, "histories/"+c.Backend, c)
 		if k := runCase(rt, "TestLockHistories", c); k != "" {
 			ev.Exclude(k + " protocol race (rest of the history not judged)")
+			ev.Known(k, "the listed protocol race occurred in a generated history")
 			if d := os.Getenv("C01_DUMP_KF"); d != "" {
 				c.AssertKnown = true
 				b, _ := json.Marshal(c)
 				_ = os.WriteFile(filepath.Join(d, fmt.Sprintf("%s-%d.json", k, time.Now().UnixNano())), b, 0o644)
 			}
 		}
+	})
+}
+
+// ---- a freshly acquired lock whose first heart-beat is slow to appear -------------------------------------------------
+
+// FreshCase: the holder acquires; the creation of its first heart-beat file is held up for DelayMs (a loaded disk; less
+// than a period, so the heart-beat "keeps running" in the sense of the property); meanwhile contenders try to take the
+// lock over, to release it as stale, or ask whether it is stale.
+type FreshCase struct {
+	Backend    string   `json:"backend"`
+	Acquire    string   `json:"acquire"` // trylock | lock | lockwithtimeout
+	DelayMs    int      `json:"first_heartbeat_delay_ms"`
+	Contenders []string `json:"contenders"` // trylock-override | releaseifstale | isstale | lock-override
+	CadenceMs  int      `json:"cadence_ms"`
+}
+
+func checkFresh(t ev.T, test string, c FreshCase) {
+	box := fsbox.New(c.Backend)
+	defer box.Close()
+	dir := box.Path("locks")
+	_ = box.Raw.MkdirAll(dir, 0o755)
+	lockDir := filepath.Join(dir, filesystem.LockFilePrefix+"-"+lockID)
+	var delayed atomic.Bool
+	box.Backend.Before = func(op *fsx.Op) {
+		if op.Client == "holder" && op.Kind == "openfile" && strings.HasPrefix(op.Path, lockDir+string(filepath.Separator)) && delayed.CompareAndSwap(false, true) {
+			time.Sleep(time.Duration(c.DelayMs) * time.Millisecond)
+		}
+	}
+	_, hfs := box.NewClient("holder")
+	holder := filesystem.NewGenericRemoteLockFile(hfs.(*filesystem.VFS), lockID, dir, false)
+	life, endLife := context.WithCancel(context.Background())
+	defer endLife()
+	t0 := time.Now() // before the lock directory exists: every age computed from it over-estimates the true age
+	var herr error
+	switch c.Acquire {
+	case "lock":
+		herr = holder.Lock(life)
+	case "lockwithtimeout":
+		herr = holder.LockWithTimeout(life, 2*time.Second)
+	default:
+		herr = holder.TryLock(life)
+	}
+	if herr != nil {
+		ev.Fail(t, prop, test, c, "the holder could not acquire a free lock: %v", herr)
+	}
+	// two periods are 100 ms: a verdict returned when the lock was (at most) 85 ms old cannot be a legitimate one
+	const limit = 85 * time.Millisecond
+	var mu sync.Mutex
+	var finding string
+	var wg sync.WaitGroup
+	stop := make(chan struct{})
+	for i, kind := range c.Contenders {
+		name := fmt.Sprintf("c%d", i+1)
+		_, cfs := box.NewClient(name)
+		lock := filesystem.NewGenericRemoteLockFile(cfs.(*filesystem.VFS), lockID, dir, strings.HasSuffix(kind, "-override"))
+		wg.Add(1)
+		go func(kind, name string) {
+			defer wg.Done()
+			for {
+				select {
+				case <-stop:
+					return
+				case <-time.After(time.Duration(c.CadenceMs) * time.Millisecond):
+				}
+				what := ""
+				octx, ocancel := context.WithTimeout(context.Background(), 20*time.Millisecond)
+				switch kind {
+				case "isstale":
+					if lock.IsStale() {
+						what = "IsStale() returned true"
+					}
+				case "releaseifstale":
+					_ = lock.ReleaseIfStale(octx)
+					if _, err := box.Raw.Stat(lockDir); err != nil {
+						what = "ReleaseIfStale() removed the lock directory"
+					}
+				case "lock-override":
+					if err := lock.Lock(octx); err == nil {
+						what = "Lock() (override) acquired the lock"
+					}
+				default:
+					if err := lock.TryLock(octx); err == nil {
+						what = "TryLock() (override) acquired the lock"
+					}
+				}
+				ocancel()
+				age := time.Since(t0)
+				if what != "" {
+					if age <= limit {
+						mu.Lock()
+						if finding == "" {
+							finding = fmt.Sprintf("%s: %s at most %v after the holder acquired (its first heart-beat file is held up for %d ms; two periods = 100ms)", name, what, age.Round(time.Millisecond), c.DelayMs)
+						}
+						mu.Unlock()
+					}
+					return
+				}
+			}
+		}(kind, name)
+	}
+	time.Sleep(time.Until(t0.Add(limit)))
+	close(stop)
+	wg.Wait()
+	mu.Lock()
+	f := finding
+	mu.Unlock()
+	if f != "" {
+		ev.Fail(t, prop, test, c, "%s; the holder is alive and has not begun to release", f)
+	}
+	uctx, ucancel := context.WithTimeout(context.Background(), 3*time.Second)
+	_ = holder.Unlock(uctx)
+	ucancel()
+}
+
+func TestFreshLock(t *testing.T) {
+	rapid.Check(t, func(rt *rapid.T) {
+		// the lock-based protocol is documented for real filesystems; the in-memory backend is used by the library's own tests
+		c := FreshCase{Backend: rapid.SampledFrom([]string{"os", "os", "mem"}).Draw(rt, "backend"), Acquire: rapid.SampledFrom([]string{"trylock", "lock", "lockwithtimeout"}).Draw(rt, "acquire")}
+		c.DelayMs = rapid.SampledFrom([]int{0, 5, 15, 25, 35, 45, 60, 80}).Draw(rt, "delay")
+		c.CadenceMs = rapid.IntRange(1, 9).Draw(rt, "cadence")
+		c.Contenders = rapid.SliceOfN(rapid.SampledFrom([]string{"trylock-override", "trylock-override", "releaseifstale", "isstale", "lock-override"}), 1, 3).Draw(rt, "contenders")
+		k, _ := json.Marshal(c)
+		ev.Case(string(k), c.DelayMs >= 15, "fresh-lock/"+c.Backend, c)
+		checkFresh(rt, "TestFreshLock", c)
+	})
+}
+
+func init() {
+	ev.RegisterReplay("TestFreshLock", func(t ev.T, raw json.RawMessage) {
+		var c FreshCase
+		if err := json.Unmarshal(raw, &c); err != nil {
+			t.Fatalf("HARNESS: %v", err)
+		}
+		checkFresh(t, "TestFreshLock", c)
 	})
 }
